@@ -8,10 +8,40 @@ use proptest::collection::vec;
 use proptest::prelude::*;
 
 const CHARS: &[&str] = &[
-    "A", "b", "7", " ", "_", "D", "L", "T", "\u{1}", "\u{7f}", "é", "ß", "€", "日", "𝄞", "~", "/", "\"", "<", "&",
+    "A",
+    "b",
+    "7",
+    " ",
+    "_",
+    "D",
+    "L",
+    "T",
+    "\u{1}",
+    "\u{7f}",
+    "é",
+    "ß",
+    "€",
+    "日",
+    "𝄞",
+    "~",
+    "/",
+    "\"",
+    "<",
+    "&",
     // scalars that text-handling code likes to treat specially: byte order mark, zero-width and no-break space,
     // controls, a combining mark, a bidi override, the replacement character, the last scalar
-    "\u{feff}", "\u{200b}", "\u{a0}", "\t", "\n", "\r", "\u{301}", "\u{202e}", "\u{fffd}", "\u{10ffff}", "\u{85}", "\u{2028}",
+    "\u{feff}",
+    "\u{200b}",
+    "\u{a0}",
+    "\t",
+    "\n",
+    "\r",
+    "\u{301}",
+    "\u{202e}",
+    "\u{fffd}",
+    "\u{10ffff}",
+    "\u{85}",
+    "\u{2028}",
 ];
 
 /// UTF-8 string of at most `max` bytes without NUL, from a small repertoire incl. multi-byte scalars
@@ -42,7 +72,11 @@ pub fn id() -> BoxedStrategy<String> {
 
 /// ids drawn from a small pool (so that filters / statistics see collisions)
 pub fn pool_id() -> BoxedStrategy<String> {
-    prop::sample::select(vec!["", "A", "APP", "APP1", "CTX", "ECU", "é", "€a", "TEST", "Ab7 ", "NONE", "APP "]).prop_map(|s| s.to_string()).boxed()
+    prop::sample::select(vec![
+        "", "A", "APP", "APP1", "CTX", "ECU", "é", "€a", "TEST", "Ab7 ", "NONE", "APP ",
+    ])
+    .prop_map(|s| s.to_string())
+    .boxed()
 }
 
 pub fn truncate_text(s: &mut String, max: usize) {
@@ -58,8 +92,9 @@ pub fn truncate_text(s: &mut String, max: usize) {
 /// text for names / units / string values: mostly short, sometimes up to `big` bytes
 /// lengths around the powers of two (and the 16-bit limits) that size-dependent code paths switch at
 const EDGE_LENGTHS: [usize; 38] = [
-    15, 16, 17, 31, 32, 33, 63, 64, 65, 127, 128, 129, 255, 256, 257, 511, 512, 513, 599, 600, 601, 1023, 1024, 1025, 4095, 4096, 4097, 8191, 8192, 16383, 16384, 32767, 32768, 32769,
-    65532, 65533, 65534, 65535,
+    15, 16, 17, 31, 32, 33, 63, 64, 65, 127, 128, 129, 255, 256, 257, 511, 512, 513, 599, 600, 601,
+    1023, 1024, 1025, 4095, 4096, 4097, 8191, 8192, 16383, 16384, 32767, 32768, 32769, 65532,
+    65533, 65534, 65535,
 ];
 fn edge_length(big: usize) -> BoxedStrategy<usize> {
     let v: Vec<usize> = EDGE_LENGTHS.iter().cloned().filter(|l| *l <= big).collect();
@@ -86,8 +121,80 @@ pub fn text(big: usize) -> BoxedStrategy<String> {
 }
 
 /// raw bytes: mostly short, sometimes up to `big` bytes
+/// A small complete stored record (storage header + message), a pure function of the seed: what a gateway or a
+/// log-in-log transport carries as payload.
+pub fn inner_record(seed: u64) -> Vec<u8> {
+    let r = crate::util::splitmix64(seed);
+    let ueh = r & 1 != 0;
+    let htyp = 0x20
+        | if ueh { UEH } else { 0 }
+        | if r & 2 != 0 { WEID } else { 0 }
+        | if r & 4 != 0 { WTMS } else { 0 }
+        | if r & 8 != 0 { MSBF } else { 0 };
+    let m = RMsg {
+        storage: Some(RStorage {
+            secs: (r >> 8) as u32,
+            micros: ((r >> 40) % 1_000_000) as u32,
+            ecu: "GW".to_string(),
+        }),
+        htyp,
+        mcnt: (r >> 16) as u8,
+        len: 0,
+        ecu: if htyp & WEID != 0 {
+            Some("IN".to_string())
+        } else {
+            None
+        },
+        seid: None,
+        tmsp: if htyp & WTMS != 0 {
+            Some((r >> 24) as u32)
+        } else {
+            None
+        },
+        ext: if ueh {
+            Some(RExt {
+                msin: 0x40,
+                noar: 0,
+                apid: "INR".to_string(),
+                ctid: "REC".to_string(),
+            })
+        } else {
+            None
+        },
+        payload: RPayload::NonVerbose(
+            (r >> 32) as u32,
+            expand_bytes(r, ((r >> 20) % 6) as usize, 0),
+        ),
+    };
+    refcodec::encode(&finish(m, None))
+}
+/// 2..=4 complete stored records back to back, optionally with a few bytes in front and behind
+fn carrier() -> BoxedStrategy<Vec<u8>> {
+    (
+        any::<u64>(),
+        2usize..=4,
+        vec(any::<u8>(), 0..3),
+        vec(any::<u8>(), 0..3),
+        prop::bool::weighted(0.3),
+    )
+        .prop_map(|(seed, n, mut lead, tail, framed)| {
+            if !framed {
+                lead.clear();
+            }
+            for k in 0..n {
+                lead.extend(inner_record(seed.wrapping_add(k as u64)));
+            }
+            if framed {
+                lead.extend(tail);
+            }
+            lead
+        })
+        .boxed()
+}
+
 pub fn blob(big: usize) -> BoxedStrategy<Vec<u8>> {
     prop_oneof![
+        1 => carrier(),
         20 => vec(any::<u8>(), 0..12),
         8 => (any::<u64>(), 0usize..64, 0u8..6).prop_map(|(s, l, a)| expand_bytes(s, l, a)),
         2 => (any::<u64>(), 0usize..=big, 0u8..6).prop_map(|(s, l, a)| expand_bytes(s, l, a)),
@@ -126,7 +233,11 @@ pub fn kind() -> BoxedStrategy<RKind> {
 }
 
 pub fn uint_value(bits: u8) -> BoxedStrategy<u128> {
-    let mask: u128 = if bits == 128 { u128::MAX } else { (1u128 << bits) - 1 };
+    let mask: u128 = if bits == 128 {
+        u128::MAX
+    } else {
+        (1u128 << bits) - 1
+    };
     prop_oneof![
         3 => prop::sample::select(vec![0u128, 1, 2, 0x7f, 0x80, 0xff, 0x100, 1000, u128::MAX, u128::MAX >> 1, (u128::MAX >> 1) + 1])
             .prop_map(move |v| v & mask),
@@ -137,7 +248,9 @@ pub fn uint_value(bits: u8) -> BoxedStrategy<u128> {
 }
 pub fn sint_value(bits: u8) -> BoxedStrategy<i128> {
     let sh = 128 - bits as u32;
-    uint_value(bits).prop_map(move |u| ((u << sh) as i128) >> sh).boxed()
+    uint_value(bits)
+        .prop_map(move |u| ((u << sh) as i128) >> sh)
+        .boxed()
 }
 pub fn f32_bits() -> BoxedStrategy<u32> {
     prop_oneof![
@@ -164,7 +277,9 @@ pub fn f64_bits() -> BoxedStrategy<u64> {
 
 pub fn value_for(kind: RKind, big: usize) -> BoxedStrategy<RVal> {
     match kind {
-        RKind::Bool => prop_oneof![2 => 0u8..=1, 1 => any::<u8>()].prop_map(RVal::Bool).boxed(),
+        RKind::Bool => prop_oneof![2 => 0u8..=1, 1 => any::<u8>()]
+            .prop_map(RVal::Bool)
+            .boxed(),
         RKind::Sint(b) | RKind::SintFx(b) => sint_value(b).prop_map(RVal::I).boxed(),
         RKind::Uint(b) | RKind::UintFx(b) => uint_value(b).prop_map(RVal::U).boxed(),
         RKind::Float(32) => f32_bits().prop_map(RVal::F32).boxed(),
@@ -198,7 +313,12 @@ pub fn arg_of(kind: RKind, big: usize) -> BoxedStrategy<RArg> {
                 _ => None,
             };
             RArg {
-                ty: RType { kind, vari, trai, scod },
+                ty: RType {
+                    kind,
+                    vari,
+                    trai,
+                    scod,
+                },
                 name: if vari { Some(name) } else { None },
                 unit: if vari && numeric { Some(unit) } else { None },
                 fixp,
@@ -213,7 +333,18 @@ pub fn arg(big: usize) -> BoxedStrategy<RArg> {
 /// argument as it appears in a network-trace payload: raw data, no flags
 pub fn nw_arg(big: usize) -> BoxedStrategy<RArg> {
     blob(big)
-        .prop_map(|d| RArg { ty: RType { kind: RKind::Raw, vari: false, trai: false, scod: 0 }, name: None, unit: None, fixp: None, val: RVal::Raw(d) })
+        .prop_map(|d| RArg {
+            ty: RType {
+                kind: RKind::Raw,
+                vari: false,
+                trai: false,
+                scod: 0,
+            },
+            name: None,
+            unit: None,
+            fixp: None,
+            val: RVal::Raw(d),
+        })
         .boxed()
 }
 
@@ -239,7 +370,13 @@ pub struct MsgParams {
 }
 impl Default for MsgParams {
     fn default() -> Self {
-        MsgParams { storage: StorageMode::Either, large: true, pool_ids: false, cell: None, free_noar: false }
+        MsgParams {
+            storage: StorageMode::Either,
+            large: true,
+            pool_ids: false,
+            cell: None,
+            free_noar: false,
+        }
     }
 }
 
@@ -273,12 +410,18 @@ fn arg_list(large: bool, elem: BoxedStrategy<RArg>) -> BoxedStrategy<Vec<RArg>> 
                         // zero of the other sign / other NaN payload in the value
                         c.val = match c.val {
                             RVal::F32(b) if b & 0x7fff_ffff == 0 => RVal::F32(b ^ 0x8000_0000),
-                            RVal::F64(b) if b & 0x7fff_ffff_ffff_ffff == 0 => RVal::F64(b ^ 0x8000_0000_0000_0000),
+                            RVal::F64(b) if b & 0x7fff_ffff_ffff_ffff == 0 => {
+                                RVal::F64(b ^ 0x8000_0000_0000_0000)
+                            }
                             RVal::F32(_) => RVal::F32(if t & 1 == 0 { 0 } else { 0x8000_0000 }),
-                            RVal::F64(_) => RVal::F64(if t & 1 == 0 { 0 } else { 0x8000_0000_0000_0000 }),
+                            RVal::F64(_) => {
+                                RVal::F64(if t & 1 == 0 { 0 } else { 0x8000_0000_0000_0000 })
+                            }
                             v => v,
                         };
-                        if let (RVal::F32(_) | RVal::F64(_), Some(prev)) = (&c.val, args.get_mut(i - 1)) {
+                        if let (RVal::F32(_) | RVal::F64(_), Some(prev)) =
+                            (&c.val, args.get_mut(i - 1))
+                        {
                             // make the pair (+0.0, -0.0)
                             prev.val = match &c.val {
                                 RVal::F32(b) => RVal::F32(b ^ 0x8000_0000),
@@ -318,29 +461,44 @@ fn payload_for_msin(msin: u8, large: bool) -> BoxedStrategy<(u8, PayloadSpec)> {
     let mstp = (msin >> 1) & 7;
     if msin & 1 != 0 {
         if mstp == 2 {
-            arg_list(large, nw_arg(big)).prop_map(move |a| (msin, PayloadSpec::NwTrace(a))).boxed()
+            arg_list(large, nw_arg(big))
+                .prop_map(move |a| (msin, PayloadSpec::NwTrace(a)))
+                .boxed()
         } else {
-            arg_list(large, arg(big)).prop_map(move |a| (msin, PayloadSpec::Verbose(a))).boxed()
+            arg_list(large, arg(big))
+                .prop_map(move |a| (msin, PayloadSpec::Verbose(a)))
+                .boxed()
         }
     } else if mstp == 3 {
-        (any::<u8>(), blob(big)).prop_map(move |(s, d)| (msin, PayloadSpec::Control(s, d))).boxed()
+        (any::<u8>(), blob(big))
+            .prop_map(move |(s, d)| (msin, PayloadSpec::Control(s, d)))
+            .boxed()
     } else {
-        (any::<u32>(), blob(big)).prop_map(move |(id, d)| (msin, PayloadSpec::NonVerbose(id, d))).boxed()
+        (any::<u32>(), blob(big))
+            .prop_map(move |(id, d)| (msin, PayloadSpec::NonVerbose(id, d)))
+            .boxed()
     }
 }
 
 fn payload_spec(ueh: bool, large: bool) -> BoxedStrategy<(u8, PayloadSpec)> {
     let big = if large { 65535 } else { 40 };
     let nonverbose = |msin: BoxedStrategy<u8>| {
-        (msin, any::<u32>(), blob(big)).prop_map(|(msin, id, d)| (msin & !1, PayloadSpec::NonVerbose(id, d))).boxed()
+        (msin, any::<u32>(), blob(big))
+            .prop_map(|(msin, id, d)| (msin & !1, PayloadSpec::NonVerbose(id, d)))
+            .boxed()
     };
     if !ueh {
         return nonverbose(Just(0u8).boxed());
     }
     // MSIN: mstp bits 1-3, mtin bits 4-7
     let mtin = || prop_oneof![3 => 0u8..=7, 1 => 8u8..=15];
-    let verbose_msin = (prop::sample::select(vec![0u8, 0, 0, 1, 3, 4, 5, 6, 7]), mtin()).prop_map(|(t, i)| (t << 1) | (i << 4) | 1);
-    let nonverbose_msin = (prop::sample::select(vec![0u8, 0, 1, 2, 4, 5, 6, 7]), mtin()).prop_map(|(t, i)| (t << 1) | (i << 4));
+    let verbose_msin = (
+        prop::sample::select(vec![0u8, 0, 0, 1, 3, 4, 5, 6, 7]),
+        mtin(),
+    )
+        .prop_map(|(t, i)| (t << 1) | (i << 4) | 1);
+    let nonverbose_msin = (prop::sample::select(vec![0u8, 0, 1, 2, 4, 5, 6, 7]), mtin())
+        .prop_map(|(t, i)| (t << 1) | (i << 4));
     let nw_msin = mtin().prop_map(|i| (2 << 1) | (i << 4) | 1);
     let ctrl_msin = mtin().prop_map(|i| (3 << 1) | (i << 4));
     let service = prop_oneof![2 => 0u8..=4, 1 => any::<u8>()];
@@ -375,7 +533,11 @@ pub fn finish(mut m: RMsg, fill: Option<u32>) -> RMsg {
                     }) + a.name.as_ref().map_or(0, |n| n.len())
                         + a.unit.as_ref().map_or(0, |n| n.len())
                 };
-                let fattest = args.iter().enumerate().max_by_key(|(_, a)| bulk(a)).map(|(i, a)| (i, bulk(a)));
+                let fattest = args
+                    .iter()
+                    .enumerate()
+                    .max_by_key(|(_, a)| bulk(a))
+                    .map(|(i, a)| (i, bulk(a)));
                 match fattest {
                     Some((i, b)) if b > 0 => shorten_arg(&mut args[i], over),
                     _ => {
@@ -397,7 +559,11 @@ pub fn finish(mut m: RMsg, fill: Option<u32>) -> RMsg {
             let delta = target - total;
             match &mut m.payload {
                 RPayload::Verbose(args) => {
-                    if let Some(a) = args.iter_mut().rev().find(|a| matches!(a.val, RVal::Raw(_) | RVal::Str(_))) {
+                    if let Some(a) = args
+                        .iter_mut()
+                        .rev()
+                        .find(|a| matches!(a.val, RVal::Raw(_) | RVal::Str(_)))
+                    {
                         match &mut a.val {
                             RVal::Raw(d) => {
                                 let add = delta.min(65535 - d.len());
@@ -411,7 +577,9 @@ pub fn finish(mut m: RMsg, fill: Option<u32>) -> RMsg {
                         }
                     }
                 }
-                RPayload::NonVerbose(_, d) | RPayload::Control(_, d) => d.extend(expand_bytes(delta as u64, delta, 0)),
+                RPayload::NonVerbose(_, d) | RPayload::Control(_, d) => {
+                    d.extend(expand_bytes(delta as u64, delta, 0))
+                }
             }
         }
     }
@@ -467,50 +635,81 @@ pub fn message(p: MsgParams) -> BoxedStrategy<RMsg> {
     let free_noar = p.free_noar;
     // "magic" knob: HTYP, MCNT and LEN of the message itself spell a 4-byte marker of the DLT ecosystem — the storage
     // pattern "DLT\x01" or the serial-header marker "DLS\x01" (version 2, ECU id only, counter 'L', length 0x5401 / 0x5301)
-    let magic = if large && cell.is_none() { prop_oneof![400 => Just(None), 1 => prop::sample::select(vec![0x5401u16, 0x5301]).prop_map(Some)].boxed() } else { Just(None).boxed() };
+    let magic = if large && cell.is_none() {
+        prop_oneof![400 => Just(None), 1 => prop::sample::select(vec![0x5401u16, 0x5301]).prop_map(Some)].boxed()
+    } else {
+        Just(None).boxed()
+    };
     let flags_ueh = match cell {
-        Some((f, _)) => (any::<u8>().prop_map(move |r| (r & 0xe0) | (f & 0x1f)), Just(f & UEH != 0)).boxed(),
+        Some((f, _)) => (
+            any::<u8>().prop_map(move |r| (r & 0xe0) | (f & 0x1f)),
+            Just(f & UEH != 0),
+        )
+            .boxed(),
         None => (any::<u8>(), prop::bool::weighted(0.8)).boxed(),
     };
     (
         (flags_ueh, any::<u8>(), storage).prop_map(|((f, u), m, s)| (f, u, m, s)),
         (idg.clone(), idg.clone(), idg.clone(), idg),
         (any::<u32>(), any::<u32>(), any::<u32>(), any::<u32>()),
-        (fill, magic, prop_oneof![6 => Just(0u8), 2 => 1u8..4, 1 => any::<u8>()]),
+        (
+            fill,
+            magic,
+            prop_oneof![6 => Just(0u8), 2 => 1u8..4, 1 => any::<u8>()],
+        ),
     )
-        .prop_flat_map(move |((flags, ueh, mcnt, with_storage), ids, nums, (fill, magic, noar))| {
-            let (flags, ueh, mcnt, fill) = match magic {
-                Some(len) => (0x44u8, false, b'L', Some(len as u32)),
-                None => (flags, ueh, mcnt, fill),
-            };
-            let spec = match cell {
-                Some((_, msin)) if ueh => payload_for_msin(msin, large),
-                _ => payload_spec(ueh, large),
-            };
-            spec.prop_map(move |(msin, spec)| {
-                let (sh_ecu, ecu, apid, ctid) = ids.clone();
-                let (secs, micros, seid, tmsp) = nums;
-                // flags: version bits 5-7 and WEID/WSID/WTMS/MSBF from the random byte, UEH as chosen
-                let htyp = (flags & !UEH) | if ueh { UEH } else { 0 };
-                let payload = match spec.clone() {
-                    PayloadSpec::Verbose(a) | PayloadSpec::NwTrace(a) => RPayload::Verbose(a),
-                    PayloadSpec::Control(s, d) => RPayload::Control(s, d),
-                    PayloadSpec::NonVerbose(id, d) => RPayload::NonVerbose(id, d),
+        .prop_flat_map(
+            move |((flags, ueh, mcnt, with_storage), ids, nums, (fill, magic, noar))| {
+                let (flags, ueh, mcnt, fill) = match magic {
+                    Some(len) => (0x44u8, false, b'L', Some(len as u32)),
+                    None => (flags, ueh, mcnt, fill),
                 };
-                let m = RMsg {
-                    storage: if with_storage { Some(RStorage { secs, micros, ecu: sh_ecu }) } else { None },
-                    htyp,
-                    mcnt,
-                    len: 0,
-                    ecu: if htyp & WEID != 0 { Some(ecu) } else { None },
-                    seid: if htyp & WSID != 0 { Some(seid) } else { None },
-                    tmsp: if htyp & WTMS != 0 { Some(tmsp) } else { None },
-                    ext: if ueh { Some(RExt { msin, noar: if free_noar { noar } else { 0 }, apid, ctid }) } else { None },
-                    payload,
+                let spec = match cell {
+                    Some((_, msin)) if ueh => payload_for_msin(msin, large),
+                    _ => payload_spec(ueh, large),
                 };
-                finish(m, fill)
-            })
-        })
+                spec.prop_map(move |(msin, spec)| {
+                    let (sh_ecu, ecu, apid, ctid) = ids.clone();
+                    let (secs, micros, seid, tmsp) = nums;
+                    // flags: version bits 5-7 and WEID/WSID/WTMS/MSBF from the random byte, UEH as chosen
+                    let htyp = (flags & !UEH) | if ueh { UEH } else { 0 };
+                    let payload = match spec.clone() {
+                        PayloadSpec::Verbose(a) | PayloadSpec::NwTrace(a) => RPayload::Verbose(a),
+                        PayloadSpec::Control(s, d) => RPayload::Control(s, d),
+                        PayloadSpec::NonVerbose(id, d) => RPayload::NonVerbose(id, d),
+                    };
+                    let m = RMsg {
+                        storage: if with_storage {
+                            Some(RStorage {
+                                secs,
+                                micros,
+                                ecu: sh_ecu,
+                            })
+                        } else {
+                            None
+                        },
+                        htyp,
+                        mcnt,
+                        len: 0,
+                        ecu: if htyp & WEID != 0 { Some(ecu) } else { None },
+                        seid: if htyp & WSID != 0 { Some(seid) } else { None },
+                        tmsp: if htyp & WTMS != 0 { Some(tmsp) } else { None },
+                        ext: if ueh {
+                            Some(RExt {
+                                msin,
+                                noar: if free_noar { noar } else { 0 },
+                                apid,
+                                ctid,
+                            })
+                        } else {
+                            None
+                        },
+                        payload,
+                    };
+                    finish(m, fill)
+                })
+            },
+        )
         .boxed()
 }
 
@@ -529,9 +728,21 @@ pub fn suffix() -> BoxedStrategy<Vec<u8>> {
 /// class labels describing a well-formed message (for the evidence histogram)
 pub fn classes_of(m: &RMsg) -> Vec<&'static str> {
     let mut c = vec![m.payload_kind()];
-    c.push(if m.big_endian() { "big-endian" } else { "little-endian" });
-    c.push(if m.htyp & UEH != 0 { "ext-header" } else { "no-ext-header" });
-    c.push(if m.storage.is_some() { "storage" } else { "no-storage" });
+    c.push(if m.big_endian() {
+        "big-endian"
+    } else {
+        "little-endian"
+    });
+    c.push(if m.htyp & UEH != 0 {
+        "ext-header"
+    } else {
+        "no-ext-header"
+    });
+    c.push(if m.storage.is_some() {
+        "storage"
+    } else {
+        "no-storage"
+    });
     if m.len as usize >= 60000 {
         c.push("len>=60000");
     }
